@@ -217,6 +217,7 @@ struct Stats {
     edges_seen: u64,
     port_writes: u64,
     boundary_writes: u64,
+    settings_reapplied: u64,
     drains: u64,
     undrained_runs: u64,
     ay_cases: u64,
@@ -317,6 +318,7 @@ fn tracking_case(ctx: &Ctx, rng: &mut Rng, id: u64, st: &mut Stats) {
     let max_steps = (nframes + 2) * 40_000;
     let mut frames_done = 0u64;
     let mut pending: Vec<(u64, Vec<(f32, f32)>)> = vec![];
+    let host_reapplies = rng.chance(1, 3);
     while frames_done < nframes && steps < max_steps {
         let pc = m.cpu().regs.get_pc();
         let is_out = m.peek(pc) == 0xD3 && m.peek(pc.wrapping_add(1)) == 0xFE;
@@ -348,6 +350,13 @@ fn tracking_case(ctx: &Ctx, rng: &mut Rng, id: u64, st: &mut Stats) {
             }
             pending.push((frame - 1, s));
             frames_done += 1;
+            // between frames a host may re-apply its sound settings (same values): that changes
+            // nothing the program has set up – in particular not the level the speaker is held at
+            if host_reapplies && frames_done % 2 == 1 {
+                m.emu.set_ay_enabled(cfg.ay);
+                m.emu.set_sound(true);
+                st.settings_reapplied += 1;
+            }
         }
     }
     if frames_done < nframes {
@@ -538,7 +547,7 @@ pub fn run(ctx: &Ctx) -> Evidence {
         }
         st
     });
-    let mut ev = Evidence::new("tracking: random DI programs in uncontended RAM writing port 0xFE every 18 T … 80 000 T (optionally programming a loud AY first), both machines, rates 8000…384000 (incl. non-multiples of 50), volumes 0…200, beeper/AY on/off; single-stepped, drained at every frame boundary: count == floor(rate/50), every sample finite and within the volume bound, and (AY silent) equal to the calibrated level of a port value in force within one sample + 12 T of its nominal time. queue: always/never/random/K-undrained drain policies at frame boundaries: a full drain yields < 2·spf samples, == spf after a previous full drain. distinct = distinct (configuration, program / policy) fingerprints");
+    let mut ev = Evidence::new("tracking: random programs in uncontended RAM writing port 0xFE every 18 T … 80 000 T, sometimes sleeping in EI;HALT right after a write, the host sometimes re-applying its sound settings between frames (optionally programming a loud AY first), both machines, rates 8000…384000 (incl. non-multiples of 50), volumes 0…200, beeper/AY on/off; single-stepped, drained at every frame boundary: count == floor(rate/50), every sample finite and within the volume bound, and (AY silent) equal to the calibrated level of a port value in force within one sample + 12 T of its nominal time. queue: always/never/random/K-undrained drain policies at frame boundaries: a full drain yields < 2·spf samples, == spf after a previous full drain. distinct = distinct (configuration, program / policy) fingerprints");
     let mut tot = Stats::default();
     for r in res {
         tot.cases += r.cases;
@@ -548,6 +557,7 @@ pub fn run(ctx: &Ctx) -> Evidence {
         tot.edges_seen += r.edges_seen;
         tot.port_writes += r.port_writes;
         tot.boundary_writes += r.boundary_writes;
+        tot.settings_reapplied += r.settings_reapplied;
         tot.drains += r.drains;
         tot.undrained_runs += r.undrained_runs;
         tot.ay_cases += r.ay_cases;
@@ -566,6 +576,7 @@ pub fn run(ctx: &Ctx) -> Evidence {
     ev.add_num("level_changes_seen_in_audio", tot.edges_seen);
     ev.add_num("port_fe_writes", tot.port_writes);
     ev.add_num("port_fe_writes_within_30T_of_a_frame_boundary", tot.boundary_writes);
+    ev.add_num("host_reapplied_sound_settings_between_frames", tot.settings_reapplied);
     ev.add_num("full_drains", tot.drains);
     ev.add_num("full_drains_after_undrained_frames", tot.undrained_runs);
     ev.add_num("ay_enabled_cases", tot.ay_cases);
